@@ -5,7 +5,7 @@ package ggml
 // H-gguf, part 2: the decode server. Every ggml.Decode of the harness runs in
 // a dedicated child process of the test binary (DESIGN.md C10: "measured
 // around the call in a dedicated process with ulimit -v"): the child sets
-// RLIMIT_AS to its start-up address space + ggHeadroom, so the worst a runaway
+// RLIMIT_AS to its start-up address space + ggHeadroom (256 MiB), so the worst a runaway
 // allocation can do is kill the child with "fatal error: out of memory",
 // which the parent turns into a violation instead of a crashed worker.
 //
@@ -34,7 +34,7 @@ import (
 )
 
 const (
-	ggHeadroom = 1 << 30 // address space the child may add to what it had at start
+	ggHeadroom = 256 << 20 // address space the child may add to what it had at start
 
 	ggFlagPrecise   = 1 // exact, GC-independent TotalAlloc measurement + attribution of the largest allocation site
 	ggFlagAccessors = 2 // exercise the accessors after a successful decode
@@ -517,7 +517,7 @@ func TestVerifGGUFChild(t *testing.T) {
 			os.Exit(3)
 		}
 		resp := ggDecodeOnce(req)
-		if resp.Alloc > 32<<20 {
+		if resp.Alloc > 64<<20 {
 			debug.FreeOSMemory()
 		}
 		jb, _ := json.Marshal(&resp)
